@@ -192,7 +192,118 @@ func genC12(ctx *fw.Ctx) []fw.Case {
 			cases = append(cases, fw.Case{ID: fmt.Sprintf("proc%d/%s", p, s.ID), Run: func(r *fw.Rec) { c12Case(r, p, s, comp) }})
 		}
 	}
+	// once per process number: a long run of rejected and panicking inputs between two
+	// parses of the same probes (state that leaks on the error paths accumulates)
+	for p := 0; p < procs; p++ {
+		p := p
+		cases = append(cases, fw.Case{ID: fmt.Sprintf("proc%d/after-many-rejections", p), Run: func(r *fw.Rec) { c12AfterRejections(r, p, always) }})
+	}
 	return cases
+}
+
+// hostileInputs are inputs the parser rejects at every stage and depth: syntax
+// errors, naming faults, and constructs whose translation fails or panics deep
+// inside nested constants, types, instructions and metadata.
+func hostileInputs() []string {
+	nest := func(inner string, depth int) string {
+		typ, val := "i8*", inner
+		for i := 0; i < depth; i++ {
+			val = fmt.Sprintf("{ %s %s }", typ, val)
+			typ = fmt.Sprintf("{ %s }", typ)
+		}
+		return fmt.Sprintf("@g = global %s %s\n", typ, val)
+	}
+	out := []string{
+		nest("bitcast (bfloat* null to i8*)", 1),
+		nest("bitcast (bfloat* null to i8*)", 7),
+		nest("bitcast (i32* @missing to i8*)", 5),
+		nest("getelementptr ({ i32 }, { i32 }* null, i32 0, i32 9)", 3),
+		"@g = global [2 x <2 x bfloat>] zeroinitializer\n",
+		"@g = global i32 udiv (i32 1, i32 2)\n",
+		"define void @f() {\n  %a = alloca bfloat\n  ret void\n}\n",
+		"define void @f() {\n  %a = add i32 %missing, 1\n  ret void\n}\n",
+		"define void @f(ptr %p) {\n  ret void\n}\n",
+		"define void @f() {\n  call void @f() [ \"b\"(bfloat 0.0) ]\n  ret void\n}\n",
+		"!0 = !{!{!{!{!9}}}}\n",
+		"!0 = !DIFile(filename: \"a\", directory: \"b\", checksumkind: CSK_SHA256, checksum: \"00\")\n",
+		"!0 = !DIBasicType(name: \"x\", encoding: DW_ATE_nonesuch)\n",
+		"%T = type { %T, bfloat }\n@g = global %T* null\n",
+		"@g = global i32 0, comdat($nope)\n",
+		"@a = alias i32, i32* getelementptr (i32, i32* @missing, i32 1)\n",
+		"define void @f() {\n  br label %nowhere\n}\n",
+		"@g = global { i32, [2 x i8*] } { i32 1, [2 x i8*] [i8* null, i8* blockaddress(@f, %b)] }\n",
+		"@g = = 1\n",
+		"define void @f() { ret void }}\n",
+	}
+	for _, s := range rejectedInputs() {
+		t, _ := s.Text()
+		out = append(out, t)
+	}
+	return out
+}
+
+// c12AfterRejections parses the probes, then thousands of hostile inputs, then
+// the probes again: every probe must be accepted or rejected as before and
+// translate into the same module. Nothing is compared across the hostile inputs
+// themselves except that each gives the same accept/reject outcome every time.
+func c12AfterRejections(r *fw.Rec, proc int, probes []corpus.Source) {
+	type probe struct {
+		id, text string
+		ref      c12Outcome
+	}
+	var ps []probe
+	for _, s := range probes {
+		t, err := s.Text()
+		if err != nil {
+			continue
+		}
+		ps = append(ps, probe{id: s.ID, text: t})
+	}
+	hostile := hostileInputs()
+	for _, h := range hostile {
+		ps = append(ps, probe{id: "hostile/" + fw.ShortHash(h), text: h})
+	}
+	canaryBefore := c12Canary()
+	for i := range ps {
+		ps[i].ref = c12Parse(func() (*ir.Module, error) { return asm.ParseString(ps[i].id, ps[i].text) })
+		r.Eval(1)
+	}
+	reps := r.Ctx().Pick(150, 1500)
+	rejected, accepted, panicked := 0, 0, 0
+	for rep := 0; rep < reps; rep++ {
+		for _, h := range hostile {
+			pan, _, _ := fw.Guard(func() {
+				m, err := asm.ParseString("hostile", h)
+				if err == nil && m != nil {
+					accepted++
+				} else {
+					rejected++
+				}
+			})
+			if pan {
+				panicked++
+			}
+		}
+	}
+	r.Eval(reps * len(hostile))
+	r.TallyN("after-many-rejections", "hostile-parses-rejected", rejected)
+	r.TallyN("after-many-rejections", "hostile-parses-accepted", accepted)
+	r.TallyN("after-many-rejections", "hostile-parses-panicked", panicked)
+	for i := range ps {
+		o := c12Parse(func() (*ir.Module, error) { return asm.ParseString(ps[i].id, ps[i].text) })
+		r.Eval(1)
+		if o.summary() != ps[i].ref.summary() {
+			r.Violate(fw.Violation{Key: "after-many-rejections/" + ps[i].id, Input: ps[i].text,
+				What: fmt.Sprintf("%s gives %s at the start of the process and %s after %d parses of rejected inputs in between", ps[i].id, ps[i].ref.summary(), o.summary(), reps*len(hostile)), Expected: ps[i].ref.text, Observed: o.text})
+		} else {
+			r.Tally("after-many-rejections", "probe-unchanged")
+		}
+		r.Fact("outcome/"+ps[i].id, o.summary())
+	}
+	if c := c12Canary(); c != canaryBefore {
+		r.Violate(fw.Violation{Key: "after-many-rejections/canary", What: "an exported package-level singleton changed during the run of rejected inputs", Expected: canaryBefore, Observed: c})
+	}
+	r.NontrivialN(fmt.Sprintf("after-many-rejections/proc%d", proc), len(ps))
 }
 
 type c12Outcome struct {
